@@ -1,6 +1,6 @@
 // watch mode (C14): drives the REAL session API of beff-wasm (feature `beff_verif`: native host functions) through a
 // history of file updates and rebuilds, and compares every rebuild with a fresh session on the same file contents.
-//   request: (watch <id> (files (file "<name>" (var "<text>" <term>)…)…) (ops (u "<file>" <k>) | (r) …) …)
+//   request: (watch <id> (files (file "<name>" (var "<text>" <term>)…)…) (ops (u "<file>" <k>) | (r) | (rs <settings>) …) …)
 //   reply:   (watch (r ok|diags "<fnv of code + diagnostics>")…)
 //   oracle:  c14.history when a rebuild differs from the fresh session (with the index of the rebuild)
 use crate::compilemode::resolve_known;
@@ -32,8 +32,18 @@ fn install_host(fs: Rc<RefCell<Fs>>) {
 }
 
 /// what the watch loop observes after `exec()`: the code, or the emitted diagnostics
-fn rebuild() -> (String, String) {
-    let r = beff_wasm::verif::bundle_to_string("entry.ts", "{\"string_formats\":[],\"number_formats\":[]}");
+/// the settings a rebuild is asked under: `(r)` = variant 0; `(rs <k>)` registers custom formats (the generated code and the
+/// diagnostics are a function of the file contents AND the settings)
+fn settings_json(k: usize) -> &'static str {
+    match k {
+        1 => "{\"string_formats\":[\"password\"],\"number_formats\":[]}",
+        2 => "{\"string_formats\":[\"password\"],\"number_formats\":[\"age\"]}",
+        _ => "{\"string_formats\":[],\"number_formats\":[]}",
+    }
+}
+
+fn rebuild(k: usize) -> (String, String) {
+    let r = beff_wasm::verif::bundle_to_string("entry.ts", settings_json(k));
     let emitted = beff_wasm::verif::take_emitted().join("\n");
     match r {
         Ok(code) => ("ok".to_string(), format!("{}\n{}", code, emitted)),
@@ -41,13 +51,13 @@ fn rebuild() -> (String, String) {
     }
 }
 
-fn fresh(fs: &Fs) -> (String, String) {
+fn fresh(fs: &Fs, k: usize) -> (String, String) {
     let fs = fs.clone();
     std::thread::Builder::new()
         .stack_size(64 << 20)
         .spawn(move || {
             install_host(Rc::new(RefCell::new(fs)));
-            rebuild()
+            rebuild(k)
         })
         .unwrap()
         .join()
@@ -67,7 +77,13 @@ pub fn run(req: &Sx) -> (Sx, Sx) {
         .iter()
         .map(|o| {
             let ol = o.as_list();
-            if ol[0].as_atom() == "u" { (ol[1].as_str().to_string(), ol[2].as_atom().parse().unwrap()) } else { (String::new(), 0) }
+            if ol[0].as_atom() == "u" {
+                (ol[1].as_str().to_string(), ol[2].as_atom().parse().unwrap())
+            } else if ol[0].as_atom() == "rs" {
+                (String::new(), ol[1].as_atom().parse().unwrap())
+            } else {
+                (String::new(), 0)
+            }
         })
         .collect();
     // a file whose first variant is the marker ABSENT does not exist until its first update
@@ -82,8 +98,8 @@ pub fn run(req: &Sx) -> (Sx, Sx) {
             let mut nr = 0;
             for (file, k) in ops {
                 if file.is_empty() {
-                    let s = rebuild();
-                    let f = fresh(&fs.borrow());
+                    let s = rebuild(k);
+                    let f = fresh(&fs.borrow(), k);
                     if s != f && fails.is_empty() {
                         fails.push(list(vec![atom("c14.history"), num(nr), st(&format!("session {} vs fresh {}: {}", s.0, f.0, crate::compilemode::diff_hint(&s.1, &f.1)))]));
                     }
